@@ -90,7 +90,7 @@ struct ctl_server
         peer_scope ps;
         v6 = ipv6;
         ctx = g_good.server_ctx(ver); ctx_bad = g_bad.server_ctx(ver);
-        core.peer.v6 = ipv6; core.peer.tls_ctx = ctx; core.peer.require_reuse = reqreuse;
+        core.peer.v6 = ipv6; core.peer.tls_ctx = ctx; core.peer.tls_ctx_other = ctx_bad; core.peer.require_reuse = reqreuse;
         lfd = ::socket(ipv6 ? AF_INET6 : AF_INET, SOCK_STREAM, 0);
         int one = 1; setsockopt(lfd, SOL_SOCKET, SO_REUSEADDR, &one, sizeof one);
         if (ipv6)
@@ -167,7 +167,7 @@ struct ctl_server
             if (g.start_tls && !ssl)
             {
                 ssl = SSL_new(g.bad_cert ? ctx_bad : ctx);
-                { std::lock_guard<std::mutex> l(mu); core.peer.tls_ctx = g.bad_cert ? ctx_bad : ctx; }   // data connections: same context
+                { std::lock_guard<std::mutex> l(mu); core.peer.tls_ctx = g.bad_cert ? ctx_bad : ctx; core.peer.tls_ctx_other = g.bad_cert ? ctx : ctx_bad; }   // data connections: same context
                 SSL_set_fd(ssl, fd);
                 int r = SSL_accept(ssl);
                 { std::lock_guard<std::mutex> l(mu); events.push_back(std::string("srv-hs:") + (r == 1 ? "1" : "0")); }
